@@ -89,10 +89,15 @@ MONO_SHAPES = [("should", d, e) for d in ("import", "imported") for e in (False,
 
 
 def _touches(tree, imports, sides) -> bool:
+    import re
+
     dens = set()
     for side in sides:
         for n in side["names"]:
-            dens |= M.den(tree, side["kind"], n) | {n}
+            if side["kind"] == "regex":
+                dens |= {m for m in tree if re.match(n, m)}
+            else:
+                dens |= M.den(tree, side["kind"], n) | {n}
     return any(u in dens or v in dens for u, v in imports)
 
 
@@ -101,10 +106,12 @@ def check_case(spec: dict) -> dict:
     tree, imports = spec["tree"], [tuple(e) for e in spec["imports"]]
     subj, obj = spec["subj"], spec["obj"]
     ev = make_evaluable(tree, imports)
-    single = len(subj["names"]) == 1 and len(obj["names"]) == 1
+    # a regular expression may stand for several modules: the negation laws are stated for one subject and one object
+    single = len(subj["names"]) == 1 and len(obj["names"]) == 1 and "regex" not in (subj["kind"], obj["kind"])
     bad = law_checks(ev, subj, obj, single) + alias_checks(ev, subj)
-    labels = ["related" if not M.names_unrelated(subj["names"] + obj["names"]) else "unrelated",
-              f"batch={len(subj['names'])}x{len(obj['names'])}"]
+    has_regex = "regex" in (subj["kind"], obj["kind"])
+    labels = (["regex-side"] if has_regex else ["related" if not M.names_unrelated(subj["names"] + obj["names"]) else "unrelated"]) + \
+             [f"batch={len(subj['names'])}x{len(obj['names'])}"]
     extra = spec.get("extra_edge")
     if extra:
         ev2 = make_evaluable(tree, imports + [tuple(extra)])
@@ -229,6 +236,12 @@ def cases(draw):
         spec["extra_edge"] = list(draw(st.sampled_from(hot if hot and draw(st.booleans()) else cand)))
     if draw(st.integers(0, 3)) == 0:
         spec["warm"] = draw(RS.decoys(tree))
+    if draw(st.integers(0, 3)) == 0:
+        # one side given as a regular expression (possibly matching a module together with its sub modules): the laws
+        # relate rules over the same two specifications, whatever form they have
+        from .c11 import regex_for
+        side = draw(st.sampled_from(["subj", "obj"]))
+        spec[side] = {"kind": "regex", "names": [draw(regex_for(tree))]}
     return spec
 
 
